@@ -268,7 +268,8 @@ PROPS = {
     "C07": {
         "proofs": ["ZlProofs.Props.C07", "ZlProofs.Props.C05"],  # rests on C05's footprint facts (no lint writes the object or package-level state)
         "corr": ["filter", "framework"],  # filter_shares_lints: the filtered registry holds the same lint values and the same configuration; filtered_is_restriction is about runAll
-        "search": ["c07"],
+        "premise_props": ["C05"],  # a C05 violation found by the searches this check runs breaks the premise its theorems rest on
+        "search": ["c07", "c05"],  # c05: the premise searched, too — a lint that re-orders or rewrites the object it is handed changes what the lints after it see
         "trusted_base": TB_COMMON,
         "assumptions": ["rests on C05's footprint facts: no lint writes the object or package-level state"],
     },
@@ -345,6 +346,7 @@ PROPS = {
         "proofs": ["ZlProofs.Props.C20", "ZlProofs.Props.C05", "ZlProofs.Props.Bodies", "ZlProofs.Props.NamesTerms", "ZlProofs.Props.C17"],  # C17: two copies of a rule agree on a list only if each is blind to its order  # C05: two rules can only be compared on "the same content" if each is a function of the object (no memory between calls); Bodies: twin_agrees, dsa_twins, san_ian_twins on the regenerated terms
         "corr": ["names", "thresholds", "bodies"],
         "obligations": [ob_loop_state],
+        "premise_props": ["C05"],
         "search": ["c20", "c05"],  # c05: histories, incl. a re-used read buffer — a twin that remembers an earlier answer contradicts its mirror image
         "trusted_base": TB_COMMON + ["the pair table in ZlProofs/Props/C20.lean and harness/pairs.go (transcribed from the property)"],
         "assumptions": [],
